@@ -4,7 +4,6 @@ import (
 	"strings"
 
 	"github.com/zclconf/go-cty/cty"
-	"github.com/zclconf/go-cty/cty/convert"
 
 	"verif/harness/convgen/cause"
 	"verif/harness/spec"
@@ -17,6 +16,7 @@ var (
 	childTgt            = cause.ChildTgt
 	anyUnknownLengthSet = cause.AnyUnknownLengthSet
 	setToListElemChange = cause.SetToListElemChange
+	unifiedOf           = cause.UnifiedOf
 )
 
 // This file holds the root-cause analyses whose verdicts are attached to
@@ -133,8 +133,8 @@ func shapeMis(inT *spec.T, tgt spec.T, under bool) bool {
 		case spec.KTuple:
 			// dynamicReplace descends into the unsafe unification of the
 			// member types (which may be a map made from objects)
-			if u := unifiedOf(inT.Elems); u != nil {
-				return shapeMis(u, *tgt.E, under)
+			if u := unifiedOf(inT.Elems); u != nil && shapeMis(u, *tgt.E, under) {
+				return true
 			}
 			for i := range inT.Elems {
 				if shapeMis(&inT.Elems[i], *tgt.E, under) {
@@ -147,8 +147,8 @@ func shapeMis(inT *spec.T, tgt spec.T, under bool) bool {
 		case spec.KMap:
 			return shapeMis(inT.E, *tgt.E, under)
 		case spec.KObject:
-			if u := unifiedOf(attrTypesOf(inT)); u != nil {
-				return shapeMis(u, *tgt.E, under)
+			if u := unifiedOf(attrTypesOf(inT)); u != nil && shapeMis(u, *tgt.E, under) {
+				return true
 			}
 			for i := range inT.Attrs {
 				if shapeMis(&inT.Attrs[i].T, *tgt.E, under) {
@@ -192,30 +192,6 @@ func attrTypesOf(t *spec.T) []spec.T {
 		out[i] = a.T
 	}
 	return out
-}
-
-// unifiedOf asks the library for the unsafe unification of the given types,
-// as dynamicReplace does (classification only: the answer decides which known
-// root cause a failure is attributed to, never whether a case passes).
-func unifiedOf(ts []spec.T) (ret *spec.T) {
-	defer func() {
-		if recover() != nil {
-			ret = nil
-		}
-	}()
-	if len(ts) == 0 {
-		return nil
-	}
-	cts := make([]cty.Type, len(ts))
-	for i, t := range ts {
-		cts[i] = t.Cty()
-	}
-	u, _ := convert.UnifyUnsafe(cts)
-	if u == cty.NilType {
-		return nil
-	}
-	r := spec.FromCty(u)
-	return &r
 }
 
 // typeDiffUnderEmpty: the abstract result type ar and the concrete result type
@@ -337,17 +313,80 @@ func unknownMapToOptDyn(vals []cty.Value, inT *spec.T, tgt spec.T) bool {
 // conversion failing, an abstract input failing where its concretisation
 // converts) by root cause.
 func errorCause(err error, in cty.Value, target spec.T) string {
+	if err == nil {
+		return ""
+	}
+	msg := err.Error()
+	if !strings.Contains(msg, "types must all match") && !strings.Contains(msg, "cannot find a common base type") {
+		return ""
+	}
 	it := spec.FromCty(in.Type())
-	if err != nil && strings.Contains(err.Error(), "element types must all match") && setToListElemChange([]cty.Value{in}, &it, target) {
+	vals := []cty.Value{in}
+	switch {
+	case setToListElemChange(vals, &it, target):
 		return causeUnknownSetToList
-	}
-	if err != nil && strings.Contains(err.Error(), "types must all match") && unknownMapToOptDyn([]cty.Value{in}, &it, target) {
+	case unknownMapToOptDyn(vals, &it, target):
 		return causeUnknownMapOptDyn
-	}
-	if err != nil && strings.Contains(err.Error(), "types must all match") && !in.IsWhollyKnown() && shapeMismatch(&it, target) {
+	case !in.IsWhollyKnown() && shapeMismatch(&it, target):
 		return causeShapeMismatch
+	case !in.IsWhollyKnown() && emptyToNestedPlaceholder(vals, &it, target):
+		return causeEmptyCollection
 	}
 	return ""
+}
+
+// emptyToNestedPlaceholder: somewhere a known empty collection is converted
+// to a collection type whose element type contains a nested placeholder: the
+// library keeps that placeholder for the empty collection but resolves it
+// from the input type for an unknown or null sibling, so the siblings of an
+// enclosing collection end up with different types.
+func emptyToNestedPlaceholder(vals []cty.Value, inT *spec.T, tgt spec.T) bool {
+	if inT == nil {
+		return false
+	}
+	if inT.IsColl() && tgt.IsColl() && tgt.E.K != spec.KDynamic && tgt.E.HasDynamic() {
+		for _, v := range vals {
+			v, _ = v.Unmark()
+			if v.IsKnown() && !v.IsNull() && v.Type().IsCollectionType() && v.LengthInt() == 0 {
+				return true
+			}
+		}
+	}
+	switch tgt.K {
+	case spec.KList, spec.KSet, spec.KMap:
+		cv, _ := valsAt(vals, "e", 0, "")
+		switch inT.K {
+		case spec.KList, spec.KSet, spec.KMap:
+			return emptyToNestedPlaceholder(cv, inT.E, *tgt.E)
+		case spec.KTuple:
+			for i := range inT.Elems {
+				if emptyToNestedPlaceholder(cv, &inT.Elems[i], *tgt.E) {
+					return true
+				}
+			}
+		case spec.KObject:
+			for i := range inT.Attrs {
+				if emptyToNestedPlaceholder(cv, &inT.Attrs[i].T, *tgt.E) {
+					return true
+				}
+			}
+		}
+	case spec.KTuple:
+		for i := range tgt.Elems {
+			cv, _ := valsAt(vals, "i", i, "")
+			if emptyToNestedPlaceholder(cv, childIn(inT, "i", i, ""), tgt.Elems[i]) {
+				return true
+			}
+		}
+	case spec.KObject:
+		for _, ta := range tgt.Attrs {
+			cv, _ := valsAt(vals, "a", 0, ta.Name)
+			if emptyToNestedPlaceholder(cv, childIn(inT, "a", 0, ta.Name), ta.T) {
+				return true
+			}
+		}
+	}
+	return false
 }
 
 // childIns is childIn over several input types at once; stepping into the
